@@ -12,7 +12,7 @@
 (*   5. remove_small_aggregates, pointwise reduction (PointwiseRun of               *)
 (*      SparseKernels.tla, Consume = FALSE) and expansion of ids and flags.         *)
 (* Property predicates (inputs and outputs only): PartitionOK, PartitionMinOK,      *)
-(* StrongFlagsOK, BlockLiftOK, TravelTogetherOK.                                    *)
+(* StrongFlagsOK, BlockLiftOK (ids + flags), TravelTogetherOK, BlockFlagsOK.         *)
 EXTENDS SparseKernels, Rat
 
 Undefined == -1
@@ -181,27 +181,37 @@ DefBlockFlags(A, eps, bs) ==
                 /\ \/ r \div bs = c \div bs
                    \/ StrongTest(eps, dia[r \div bs], dia[c \div bs], At(Ap, r \div bs, c \div bs))]
 
-\* block_size b: the unknowns of one grid node travel together, the node partition is a valid
-\* partition of the pointwise matrix, flags are the block flags
-TravelTogetherOK(A, eps, bs, id, count) ==
-    /\ Len(id) = A.n /\ count % bs = 0
+\* block_size b: the unknowns of one grid node travel together: id[ip*b+k] = b*g[ip] + k for a
+\* node aggregate g[ip] >= 0, or all b ids are negative
+TravelIdsOK(A, bs, id, count) ==
+    /\ Len(id) = A.n /\ count % bs = 0 /\ A.n % bs = 0
     /\ \A ip \in 0..((A.n \div bs) - 1) :
          \/ \A k \in 0..(bs - 1) : id[ip * bs + k + 1] < 0
          \/ /\ id[ip * bs + 1] >= 0 /\ id[ip * bs + 1] % bs = 0
             /\ \A k \in 0..(bs - 1) : id[ip * bs + k + 1] = id[ip * bs + 1] + k
-    /\ PartitionOK(DefPointwise(A, bs), eps,
-                   [ip1 \in 1..(A.n \div bs) |-> IF id[(ip1 - 1) * bs + 1] >= 0 THEN id[(ip1 - 1) * bs + 1] \div bs ELSE Removed],
-                   count \div bs)
+NodeIds(A, bs, id) ==
+    [ip1 \in 1..(A.n \div bs) |-> IF id[(ip1 - 1) * bs + 1] >= 0 THEN id[(ip1 - 1) * bs + 1] \div bs ELSE Removed]
+\* ... and the node partition is a valid partition of the pointwise matrix
+TravelTogetherOK(A, eps, bs, id, count) ==
+    /\ TravelIdsOK(A, bs, id, count)
+    /\ PartitionOK(DefPointwise(A, bs), eps, NodeIds(A, bs, id), count \div bs)
+TravelMinOK(A, eps, bs, minaggr, id, count) ==
+    /\ TravelIdsOK(A, bs, id, count)
+    /\ PartitionMinOK(DefPointwise(A, bs), eps, bs, minaggr, NodeIds(A, bs, id), count \div bs)
 BlockFlagsOK(A, eps, bs, strong) == Len(strong) = NNZ(A) /\ strong = Bits(DefBlockFlags(A, eps, bs))
 
 \* coarsening A (x) I_b with block_size b = lifted coarsening of A:
 \* r1 = result for A (block_size 1), rb = result for Ab = Lift(A, b) with block_size b
-BlockLiftOK(A, b, Ab, r1, rb) ==
+BlockLiftIdsOK(A, b, Ab, r1, rb) ==
     /\ rb.empty = r1.empty
     /\ ~r1.empty =>
-        /\ rb.count = b * r1.count
-        /\ Len(rb.id) = A.n * b /\ Len(rb.strong) = NNZ(Ab)
+        /\ rb.count = b * r1.count /\ Len(rb.id) = A.n * b /\ Len(r1.id) = A.n
         /\ \A i \in Rows(A) : \A k \in 0..(b - 1) :
-             /\ IF r1.id[i + 1] >= 0 THEN rb.id[i * b + k + 1] = b * r1.id[i + 1] + k ELSE rb.id[i * b + k + 1] < 0
-             /\ \A q \in 1..RowLen(A, i) : rb.strong[Ptr(Ab, i * b + k) + q] = r1.strong[Ptr(A, i) + q]
+             IF r1.id[i + 1] >= 0 THEN rb.id[i * b + k + 1] = b * r1.id[i + 1] + k ELSE rb.id[i * b + k + 1] < 0
+BlockLiftFlagsOK(A, b, Ab, r1, rb) ==
+    (~r1.empty /\ ~rb.empty) =>
+        /\ Len(rb.strong) = NNZ(Ab) /\ Len(r1.strong) = NNZ(A)
+        /\ \A i \in Rows(A) : \A k \in 0..(b - 1) : \A q \in 1..RowLen(A, i) :
+             rb.strong[Ptr(Ab, i * b + k) + q] = r1.strong[Ptr(A, i) + q]
+BlockLiftOK(A, b, Ab, r1, rb) == BlockLiftIdsOK(A, b, Ab, r1, rb) /\ BlockLiftFlagsOK(A, b, Ab, r1, rb)
 =============================================================================
